@@ -591,6 +591,8 @@ func genC03(repo string) (string, error) {
 		{"runtime/vcache/nulls.go", "", "convolve"},
 		{"runtime/vcache/loader.go", "loader", "load"},
 		{"runtime/vcache/loader.go", "loader", "loadPrimitive"},
+		{"runtime/vcache/loader.go", "loader", "loadVals"},
+		{"runtime/vcache/loader.go", "", "empty"},
 		{"runtime/vcache/loader.go", "loader", "loadOffsets"},
 		{"runtime/vcache/loader.go", "loader", "loadUint32"},
 		{"runtime/vcache/loader.go", "loader", "loadRecord"},
